@@ -355,6 +355,15 @@ def check_lookup(case, ctx):
         mv_ = operations.translate(obj, [4.0, -2.0, 1.0][:d["dim"]])
         _ = [list(q) for q in mv_.ctrlpts]
         ctx.label("moved-copy-next-to-the-shape")
+    if d["kind"] == "curve" and len(d["P"]) % 4 == 2:
+        # the curve was looked at (views, a first lookup) and then reversed: the lookup answers for the reversed curve
+        _ = [list(q) for q in obj.ctrlpts], (list(obj.weights) if d["rational"] else None), operations.find_ctrlpts(obj, obj.domain[0])
+        obj.reverse()
+        d = dict(d)
+        d["P"] = [list(q) for q in d["P"][::-1]]
+        if d["rational"]:
+            d["W"] = list(d["W"][::-1])
+        ctx.label("reversed-after-first-lookup")
     if d["kind"] == "surface" and len(d["P"]) % 3 == 0:
         # the net was handed over in its documented 2-D form (rows of points along v, one row per u index)
         nv_ = d["size"][1]
